@@ -1322,7 +1322,7 @@ class Bpsec(AbstractApplication):
         # Report status reason
         failure = []
 
-        confidential_blocks = ctr.block_type(BlockConfidentialityBlock)
+        confidential_blocks = list(ctr.block_type(BlockConfidentialityBlock))
         for bcb in confidential_blocks:
             LOGGER.debug('Verifying BCB in %d with context %s, targets %s',
                          bcb.block_num, bcb.payload.context_id, bcb.payload.targets)
@@ -1357,7 +1357,7 @@ class Bpsec(AbstractApplication):
         # Report status reason
         failure = []
 
-        integ_blocks = ctr.block_type(BlockIntegrityBlock)
+        integ_blocks = list(ctr.block_type(BlockIntegrityBlock))
         for bib in integ_blocks:
             LOGGER.debug('Verifying BIB in %d with context %s, targets %s',
                          bib.block_num, bib.payload.context_id, bib.payload.targets)
